@@ -83,6 +83,7 @@ mod real {
                 t!(st.xadd_with_id(0, v(b"x"), StreamId::new(5, 0), fields(&[(b"f", b"v")])));
                 t!(st.expire(0, b"x", hour));
                 t!(st.set_string(0, v(b"plain"), v(b"p")));
+                t!(st.set_string(0, v(b"v100"), vec![b'q'; 100]));
             }
             "zset-small" => {
                 for (m, s) in [
@@ -455,6 +456,28 @@ mod real {
                 let mut b = bytes.to_vec();
                 let k = rng.range(2, 6);
                 const INTERESTING: [u8; 16] = [0x00, 0xFF, 0x3F, 0x40, 0x7F, 0x80, 0xBF, 0xC0, 0xFA, 0xFB, 0xFC, 0xFD, 0xFE, 0x01, 0x05, 0x81];
+                // structure-aware: swap a length-prefixed decimal string (stream
+                // field counts, IDs, numeric values) for an edge-case number
+                if rng.chance(1, 6) {
+                    let mut spots: Vec<(usize, usize)> = Vec::new();
+                    for i in 9..b.len() {
+                        let l = b[i] as usize;
+                        if l >= 1 && l <= 20 && i + 1 + l <= b.len() && b[i + 1..i + 1 + l].iter().all(|c| c.is_ascii_digit()) {
+                            spots.push((i, l));
+                        }
+                    }
+                    if !spots.is_empty() {
+                        let (i, l) = *rng.pick(&spots);
+                        const NUMS: [&str; 8] = [
+                            "18446744073709551615", "9223372036854775808", "9223372036854775807", "4611686018427387904", "4294967296", "0", "00000000000000000001",
+                            "99999999999999999999",
+                        ];
+                        let nv = rng.pick(&NUMS).as_bytes();
+                        let mut piece = vec![nv.len() as u8];
+                        piece.extend_from_slice(nv);
+                        b.splice(i..i + 1 + l, piece);
+                    }
+                }
                 for _ in 0..k {
                     if b.is_empty() {
                         break;
@@ -555,11 +578,16 @@ mod real {
         if outcome != "panic" {
             match catch(|| storage.verif_check()) {
                 Ok(problems) => {
-                    if let Some(first) = problems.first() {
+                    // canonical choice among several reports: smallest normalised text
+                    let first = problems.iter().min_by_key(|p| {
+                        let cut = p.find(" db=").unwrap_or(p.len());
+                        normalise_text(&p[..cut])
+                    });
+                    if let Some(first) = first {
                         let cut = first.find(" db=").unwrap_or(first.len());
                         viols.push((
                             format!("load/corrupt-state/{}", normalise_text(&first[..cut]).replace(' ', "-")),
-                            format!("after load (result {}) verif_check reports {} problem(s), first: {}", outcome, problems.len(), first),
+                            format!("after load (result {}) verif_check reports {} problem(s), e.g.: {}", outcome, problems.len(), first),
                         ));
                     }
                 }
@@ -901,7 +929,10 @@ mod real {
         let nbatches = queue.len();
         let queue = Mutex::new(queue);
         let results: Mutex<Vec<BatchOut>> = Mutex::new(Vec::new());
-        let workers = std::thread::available_parallelism().map(|n| n.get()).unwrap_or(4).clamp(1, 8);
+        let workers = match args.other.get("workers").and_then(|w| w.parse::<usize>().ok()) {
+            Some(w) => w.clamp(1, 64),
+            None => std::thread::available_parallelism().map(|n| n.get()).unwrap_or(4).clamp(1, 8),
+        };
         let skipped_batches = Mutex::new(0usize);
         std::thread::scope(|s| {
             for _ in 0..workers {
@@ -938,7 +969,7 @@ mod real {
             }
             for (c, sig, detail) in &b.viols {
                 if let Some(m) = d.plan.case(&d.bytes, *c, ctx.multi_seed) {
-                    rep.violation(
+                    rep.violation_w(
                         sig.clone(),
                         format!(
                             "{}; dump {} with {} (region {}); {}",
@@ -949,6 +980,7 @@ mod real {
                             damaged_hex(d, &m)
                         ),
                         replay_string(d, &m),
+                        apply(&d.bytes, &m).len(),
                     );
                 }
             }
